@@ -195,6 +195,29 @@ ApplyEdgePoints(s, n, p, b) ==
 Apply(s, op) ==
     IF op.kind = "np" THEN ApplyNodePoints(s, op.n, op.b) ELSE ApplyEdgePoints(s, op.n, op.p, op.b)
 
+\* ---------------------------------------------------------------- composite client operations
+\* client.MoveNode / client.MirrorNode: sequences of acknowledged edge writes (C05 quantifies over
+\* moves and mirrors too: refused = error and no trace).  A move creates the new edge (tombstone 0
+\* and the node's type) and then deletes the old one.
+\*   intended  the move is refused up front unless the node hangs below the old parent and is
+\*             not the instance root - then only the first write can fail, and it leaves nothing
+\*   asCoded   no such check: with a wrong old parent (or the root) the second write is refused
+\*             after the first one has been stored and rebroadcast
+NodeExists(s, n) == \E e \in s.edges : e[2] = n
+TombBatch(ts, v, nt) == [pts |-> <<Pt("tombstone", "0", ts, v, 0, "")>>, nodeType |-> nt]
+Mirror(s, n, new, ts, nt) ==
+    IF ~NodeExists(s, n) THEN Refused(s) ELSE ApplyEdgePoints(s, n, new, TombBatch(ts, 0, nt))
+Move(s, n, old, new, ts, nt, asCoded) ==
+    IF new = old \/ ~NodeExists(s, n) THEN Refused(s)
+    ELSE IF ~asCoded /\ (<<old, n>> \notin s.edges \/ old = Sentinel) THEN Refused(s)
+    ELSE LET r1 == ApplyEdgePoints(s, n, new, TombBatch(ts, 0, nt))
+         IN IF r1.reply = "err" THEN Refused(s)
+            ELSE LET r2 == ApplyEdgePoints(r1.s, n, old, TombBatch(ts + 1, 1, ""))
+                 IN IF r2.reply = "err" THEN Result(r1.s, "err", r1.out)
+                    ELSE Result(r2.s, "", r1.out \cup r2.out)
+MoveAllOrNothing(s, n, old, new, ts, nt, asCoded) ==
+    LET r == Move(s, n, old, new, ts, nt, asCoded) IN r.reply = "err" => (r.s = s /\ r.out = {})
+
 \* ---------------------------------------------------------------- verification and repair
 \* admin.storeVerify / admin.storeMaint (verifyNodeHashes).  C03's last clause says a verification
 \* finds nothing on any store the write path has produced; the rest is beyond the listed properties.
